@@ -10,11 +10,12 @@ Not decided: re-encode equivalence (round-trip equality over all inputs).
  W3 (K4) no lossy integer conversion (`as` cast that narrows or changes signedness) in
     hand-written code reachable from the decoders: distinct wire values would collapse to one
     accepted value.
+ W4 (K2) the hand-rolled address-bytes collector accepts only inputs whose own length is 20.
 """
 import re
 
 from facts import short_name
-from kinds import (rel, k7_panics, result_blocks, comparisons, k1_constructors, panic_sites,
+from kinds import (must_be_equal, rel, k7_panics, result_blocks, comparisons, k1_constructors, panic_sites,
                    k2_site_guarded, bool_payload_edges)
 
 CRATES = ["astria_core.lib", "astria_merkle.lib", "astria_core_crypto.lib",
@@ -297,6 +298,31 @@ def run(prog, rep):
              f"{n} potential panic constructs inspected")
     w2(prog, rep)
     w3(prog, rep, seen)
+    w4(prog, rep)
+
+
+def w4(prog, rep):
+    """W4 (K2) fixed-size decoding accepts only the exact length: the one hand-rolled
+    variable-length -> [u8; 20] conversion (every textual and raw address on the wire goes
+    through it) returns Ok only behind `len(input) == ADDRESS_LENGTH`, where the compared value
+    is the length *of the input itself* - not a counter of the bytes that fit (a `zip` with the
+    20-byte array stops early: over-long payloads would be truncated and accepted, and the
+    accepted address would not re-encode to the string it was decoded from)."""
+    fn = "astria_core_address::try_collect_to_array"
+    if fn not in prog.by_owner:
+        rep.anchor_missing("W4", fn)
+        return
+    b = prog.main_body(fn)
+    oks = result_blocks(b, "Ok")
+    rep.floor("W4", len(oks), 1, "Ok results in try_collect_to_array")
+    good = bool(oks)
+    how = ""
+    for o in oks:
+        ok, how = must_be_equal(b, r"^len\((into_iter\()?iter\)?\)$", r"^const\(20\)$", o)
+        good = good and ok
+    rep.check(good, "W4", "address-bytes:exact-length",
+              "try_collect_to_array can return Ok without `input.len() == 20` having been "
+              f"established on the input's own length ({how})", b.describe())
 
 
 INT_BITS = {"u8": 8, "u16": 16, "u32": 32, "u64": 64, "u128": 128, "usize": 64,
